@@ -8,6 +8,8 @@
 package world
 
 import (
+	"context"
+	"errors"
 	"fmt"
 	"io"
 	"net"
@@ -89,6 +91,9 @@ type Fetch struct {
 	// BodyLen is what the origin sent, BodyRead what the crawler had read when it closed the body:
 	// the WARC library records the bytes that crossed the connection, so an unread tail is lost.
 	BodyLen, BodyRead int
+	// Canceled: the request's own context was cancelled (by the crawler: the server had no say) and the round trip
+	// failed with that error, as a real transport's does
+	Canceled bool
 }
 
 // Msg is an item seen on the finish or produce channel.
@@ -125,6 +130,7 @@ type Options struct {
 	SlowWrites           bool     // every WARC write may (as an environment deviation, cost F) take 5 virtual minutes
 	DomainsCrawlPatterns []string // --domains-crawl
 	HTTPTimeout          int      // --http-timeout in seconds (0 = the default: -1, no time-out)
+	WriteMs              int      // every WARC write takes that long (virtual time) and counts in the client's writing queue until it is done
 	SlowSourceMs         int      // the source takes that long (virtual time) over every finished seed it is handed
 }
 
@@ -239,6 +245,15 @@ func (w *World) Start() {
 	w.ArchOut = make(chan *models.Item, n)
 	hook := discard.NewBuilder().AddDefaultHooks().Build()
 	w.client = warc.NewVerifClient(&transport{w: w}, hook)
+	warc.VerifWait = nil
+	if w.Opt.WriteMs > 0 {
+		// the stop sequence waits for the writing queue: in virtual time, where the scheduler sees it
+		warc.VerifWait = func(wg *warc.WaitGroupWithCount) {
+			for wg.Size() > 0 {
+				time.Sleep(250 * time.Millisecond)
+			}
+		}
+	}
 	if w.Opt.Proxy {
 		config.Get().Proxy = "socks5://127.0.0.1:1"
 		must(archiver.VerifStart(w.PreOut, w.ArchOut, nil, w.client))
@@ -433,6 +448,13 @@ func (t *transport) RoundTrip(req *http.Request) (*http.Response, error) {
 	if r.DelayMs > 0 {
 		time.Sleep(time.Duration(r.DelayMs) * time.Millisecond)
 	}
+	if err := req.Context().Err(); err != nil { // a real transport gives up a request whose context is done
+		w.mu.Lock()
+		f.End = x.StepIndex()
+		f.Canceled = errors.Is(err, context.Canceled)
+		w.mu.Unlock()
+		return nil, err
+	}
 	if r.Err {
 		w.mu.Lock()
 		f.End = x.StepIndex()
@@ -581,7 +603,14 @@ func (b *body) Close() error {
 	w.mu.Unlock()
 	f, fb := b.f, b.fb
 	slow := w.Opt.SlowWrites
+	if w.Opt.WriteMs > 0 {
+		w.client.WaitGroup.Add(1) // the record is in the writing queue from now on
+	}
 	go func() { // "WARC write of " + f.URL
+		if w.Opt.WriteMs > 0 {
+			defer w.client.WaitGroup.Done()
+			time.Sleep(time.Duration(w.Opt.WriteMs) * time.Millisecond)
+		}
 		if slow && vsched.Choose("h:this WARC write is slow", 2) == 1 {
 			time.Sleep(5 * time.Minute)
 		}
